@@ -8,6 +8,7 @@ import itertools
 
 from specs import core as S
 from vlib import domains as D
+from props import containers  # noqa: F401  (registers its checks before the worker pool is forked)
 from vlib.core import bad, check, ok
 
 LEVEL = "exploration"
@@ -225,4 +226,5 @@ def run(ctx):
             rule="is_shaded / is_pointfree for every rectangle of every listed mesh pattern")
     ctx.assumptions += ["B layer: bounded; witnesses for 'strongest' are searched among the pattern itself and its one-point extensions (sufficient by construction)"]
     from props import dlayer
+    containers.run_for(ctx, "C06")
     dlayer.run(ctx, "C06")
